@@ -29,7 +29,7 @@ QUICK_SESSIONS = {
     "C31": 320,
 }
 THOROUGH_SESSIONS = {
-    "default": 480,
+    "default": 240,
     "C17": 12000,
     "C19": 16000,
     "C31": 8000,
